@@ -163,7 +163,10 @@ pub mod implementations {
 
         if let Some(name) = args.get(1) {
             let bundle = ctx
-                .load_variable(name)
+                .load_local(name)
+                .or_else(|_| ctx.load_callback_variable(name))
+                .ok()
+                .or_else(|| ctx.load_variable(name))
                 .with_context(|| format!("{name} has not been mapped"))?;
             let value: &mut Primitive = ctx
                 .get_last_op_item_mut()
@@ -528,9 +531,11 @@ pub mod implementations {
         let callback_state = if len != 1 {
             let mut arguments = HashMap::with_capacity(len - 1); // maybe len
             for var_name in &args[1..] {
-                let var = if let Some(var) = ctx.load_variable(var_name) {
+                let var = if let Ok(var) = ctx.load_local(var_name) {
                     var
                 } else if let Ok(var) = ctx.load_callback_variable(var_name) {
+                    var
+                } else if let Some(var) = ctx.load_variable(var_name) {
                     var
                 } else {
                     bail!("{var_name} is not in scope")
@@ -1191,9 +1196,13 @@ pub mod implementations {
             bail!("load requires a name")
         };
 
-        let var = if let Some(var) = ctx.load_variable(name) {
+        // lexical order: this function's own frames, then what it captured,
+        // and only then the frames of the functions that happen to be calling it.
+        let var = if let Ok(var) = ctx.load_local(name) {
             var
         } else if let Ok(var) = ctx.load_callback_variable(name) {
+            var
+        } else if let Some(var) = ctx.load_variable(name) {
             var
         } else {
             bail!("load before store (`{name}` not in scope)")
